@@ -347,3 +347,448 @@ Proof.
            (Fermat.distance_pairwise NumR) Rdiv (Fermat.leg_entry NumR)
            Rle_bool_total_preorder (FermatProofs.c_leg_tab NumR) p); [cbn; lia | exact Hok].
 Qed.
+
+(* ==================================================================================================
+   The OBJECT-LEVEL glue (Model/RayGeomGlue.v; proofs in Proofs/RayGeomGlueProofs.v, axiom-free, and
+   Proofs/RayGeomGlueRealProofs.v): the index table of a Rays object as a flat buffer in C or Fortran
+   order with a dtype, the constructors Interface.__init__ / Rays.__init__ / Rays.make_indices /
+   RayGeometry.__init__ / from_path with their exceptions, np.take on SIGNED point indices, the flags
+   as Python values, and the 17 methods written once over the two gathers (`o_all N ifs col idx` = the
+   17 answers, in the order of the source, for the ray whose column rays.indices[:, i, j] is col).
+   Executions replayed on the library: Proofs/RayGeomGlueExamples.v, notes/prover_C05_TIE.md.
+   ================================================================================================== *)
+From Arim Require Import Model.RayGeomGlue Proofs.RayGeomGlueProofs Proofs.RayGeomGlueRealProofs.
+From Arim Require Proofs.RayGeomGlueExamples.   (* the vm_compute executions are checked with this target *)
+Local Close Scope R_scope.
+
+(* ---- the index table: memory order and dtype ------------------------------------------------------- *)
+(* entry (k, i, j) of an array stored in C order (strides n m, m, 1) or in Fortran order
+   (strides 1, D, D n) is read back at its own offset *)
+Theorem table_entry_in_either_order : forall o dt D n m (f : nat -> nat -> nat -> Z) k i j,
+  k < D -> i < n -> j < m -> tbl_get (tbl_of_fun o dt D n m f) k i j = Some (f k i j).
+Proof. exact tbl_get_of_fun. Qed.
+
+(* the column of ray (i, j) does not depend on the order nor on the dtype tag of the table ... *)
+Theorem ray_column_order_irrelevant : forall o o' dt dt' D n m (f : nat -> nat -> nat -> Z) i j,
+  i < n -> j < m -> tbl_column (tbl_of_fun o dt D n m f) i j = tbl_column (tbl_of_fun o' dt' D n m f) i j.
+Proof. exact tbl_column_order_irrelevant. Qed.
+
+(* ... and only on the entries [:, i, j]: the other rays stored in the table are irrelevant *)
+Theorem ray_column_depends_on_its_entries_only : forall o dt D n m (f g : nat -> nat -> nat -> Z) i j,
+  i < n -> j < m -> (forall k, k < D -> f k i j = g k i j) ->
+  tbl_column (tbl_of_fun o dt D n m f) i j = tbl_column (tbl_of_fun o dt D n m g) i j.
+Proof. exact tbl_column_depends_on_column_only. Qed.
+
+(* Rays.make_indices: rays.indices[:, i, j] = [i] ++ interior[:, i, j] ++ [j], with i and j CAST to
+   the dtype of the interior indices, whatever order is requested or chosen from the layout flags *)
+Theorem make_indices_column_spec : forall interior ord d n m i j,
+  length (a_data interior) = d -> i < n -> j < m ->
+  tbl_column (make_indices_tbl interior ord d n m) i j =
+  Some (cast (a_dtype interior) (Z.of_nat i) :: interior_column (a_data interior) i j
+        ++ [cast (a_dtype interior) (Z.of_nat j)]).
+Proof. exact make_indices_column. Qed.
+
+Theorem make_indices_layout_irrelevant_thm : forall interior interior' ord ord' d n m i j,
+  a_data interior = a_data interior' -> a_dtype interior = a_dtype interior' ->
+  length (a_data interior) = d -> i < n -> j < m ->
+  tbl_column (make_indices_tbl interior ord d n m) i j = tbl_column (make_indices_tbl interior' ord' d n m) i j.
+Proof. exact make_indices_layout_irrelevant. Qed.
+
+(* any signed integer dtype with room for the first and last point sets gives the same column,
+   with first entry i and last entry j *)
+Theorem index_dtype_irrelevant_when_wide_enough : forall interior interior' ord ord' d n m bits bits' i j,
+  a_data interior = a_data interior' -> a_dtype interior = DInt bits -> a_dtype interior' = DInt bits' ->
+  (0 < bits)%Z -> (0 < bits')%Z ->
+  (Z.of_nat (Nat.max n m) <= 2 ^ (bits - 1))%Z -> (Z.of_nat (Nat.max n m) <= 2 ^ (bits' - 1))%Z ->
+  length (a_data interior) = d -> i < n -> j < m ->
+  tbl_column (make_indices_tbl interior ord d n m) i j = tbl_column (make_indices_tbl interior' ord' d n m) i j /\
+  tbl_column (make_indices_tbl interior ord d n m) i j =
+    Some (Z.of_nat i :: interior_column (a_data interior) i j ++ [Z.of_nat j]).
+Proof. exact make_indices_dtype_irrelevant. Qed.
+
+(* the full statement "indices[0, i, j] = i for every accepted dtype" is FALSE of the code: with int8
+   interior indices and 200 first points the entry for i = 128 is -128, which np.take reads as the
+   point 72 (replayed on the library: notes/prover_C05_TIE.md, example E9) *)
+Theorem first_row_is_i_refuted_for_narrow_dtype : exists interior n m i j,
+  kind_i (a_dtype interior) = true /\ i < n /\ j < m /\
+  tbl_column (make_indices_tbl interior None 0 n m) i j = Some [(-128)%Z; 0%Z] /\ i = 128 /\
+  resolve n (-128) = Some 72.
+Proof.
+  exists (mkArr [0; 200; 1] (DInt 8) true false []), 200, 1, 128, 0.
+  vm_compute. repeat split; try reflexivity; repeat constructor.
+Qed.
+
+(* ---- constructors ------------------------------------------------------------------------------------ *)
+(* Rays.__init__ builds the object iff its six assertions hold, and then stores make_indices' table *)
+Theorem rays_constructor_accepts_iff : forall T times interior (fpoints : list (points (T:=T))) ord r,
+  rays_init times interior fpoints ord = Built r <->
+  exists d n m, rays_args_ok times interior fpoints d n m /\
+                r = mkRays times (make_indices_tbl interior ord d n m) fpoints.
+Proof. exact @rays_init_built. Qed.
+
+Theorem rays_constructor_only_asserts : forall T times interior (fpoints : list (points (T:=T))) ord,
+  fpoints <> [] ->
+  rays_init times interior fpoints ord = BAssert \/ exists r, rays_init times interior fpoints ord = Built r.
+Proof. exact @rays_init_error_kind. Qed.
+
+(* RayGeometry.__init__: AssertionError unless the Points of the Fermat path ARE (identity) the Points
+   of the interfaces, one for one *)
+Theorem raygeometry_constructor_accepts_iff : forall T (ifs : list (interface (T:=T))) r g,
+  (raygeom_init ifs r = Built g <->
+   map p_id (r_fpoints r) = map (fun f => p_id (i_points f)) ifs /\ g = mkRayGeom ifs r) /\
+  (map p_id (r_fpoints r) <> map (fun f => p_id (i_points f)) ifs <-> raygeom_init ifs r = BAssert).
+Proof. intros T ifs r g. exact (conj (raygeom_init_built ifs r g) (raygeom_init_assert ifs r)). Qed.
+
+(* RayGeometry.from_path: ValueError iff path.rays is None, otherwise the constructor *)
+Theorem from_path_requires_rays : forall T (p : path (T:=T)),
+  match pa_rays p with
+  | None => raygeom_from_path p = BValue
+  | Some r => raygeom_from_path p = raygeom_init (pa_interfaces p) r /\ raygeom_from_path p <> BValue
+  end.
+Proof. exact @raygeom_from_path_spec. Qed.
+
+(* Interface.__init__: what a built interface holds (one frame per point in particular) *)
+Theorem interface_constructor_spec : forall T (pts : points (T:=T)) o inc out f,
+  interface_init pts o inc out = Built f ->
+  interface_wf f /\ i_points f = pts /\ i_inc f = inc /\ i_out f = out /\
+  none_or_bool inc = true /\ none_or_bool out = true /\
+  i_orient f = match o with OneFrame B => repeat B (npoints pts) | PerPoint l => l end.
+Proof. exact @interface_init_built. Qed.
+
+(* one frame given for all points = that frame stored per point: the same object, never rejected *)
+Theorem one_frame_is_broadcast : forall T (pts : points (T:=T)) B inc out,
+  interface_init pts (OneFrame B) inc out = interface_init pts (PerPoint (repeat B (npoints pts))) inc out /\
+  (none_or_bool inc = true -> none_or_bool out = true ->
+   interface_init pts (OneFrame B) inc out = Built (mkInterface pts (repeat B (npoints pts)) inc out)).
+Proof. exact @interface_init_broadcast. Qed.
+
+Theorem interface_constructor_errors : forall T (pts : points (T:=T)) o inc out,
+  (none_or_bool inc = false \/ none_or_bool out = false -> interface_init pts o inc out = BAssert) /\
+  (none_or_bool inc = true -> none_or_bool out = true ->
+   forall l, o = PerPoint l -> length l <> npoints pts -> interface_init pts o inc out = BValue).
+Proof. exact @interface_init_errors. Qed.
+
+(* ---- the objects refine Model/RayGeom.v ---------------------------------------------------------------- *)
+(* the 17 methods are functions of leg_points, orientations_of_legs_points, the flags and the number
+   of interfaces, and of nothing else *)
+Theorem methods_depend_only_on_the_two_gathers : forall T (N : Num T) nif lp lp' lo lo' finc finc' fout fout',
+  (forall idx, lp idx = lp' idx) -> (forall idx, lo idx = lo' idx) ->
+  (forall a, a < nif -> finc a = finc' a) -> (forall a, a < nif -> fout a = fout' a) ->
+  forall idx, m_all N nif lp lo finc fout idx = m_all N nif lp' lo' finc' fout' idx.
+Proof. exact @m_all_ext. Qed.
+
+(* Model/RayGeom.v is these 17 methods over its own gathers ... *)
+Theorem core_model_is_the_generic_methods : forall T (N : Num T) (ifs : list (iface (T:=T))) ray idx,
+  core_all N ifs ray idx =
+  m_all N (length ifs) (leg_points ifs ray) (orientations_of_legs_points ifs ray)
+        (core_flag ifs if_inc) (core_flag ifs if_out) idx.
+Proof. exact @core_all_generic. Qed.
+
+(* ... and the object with SIGNED point indices and Python flags answers, in all 17 methods, as
+   Model/RayGeom.v on the normalised ray: every theorem above applies to the objects *)
+Theorem object_queries_are_core_queries : forall T (N : Num T) (ifs : list (interface (T:=T))) col,
+  length col = length ifs -> Forall interface_wf ifs ->
+  forall idx, o_all N ifs col idx = core_all N (map to_iface ifs) (normalise ifs col) idx.
+Proof. exact @o_all_refines. Qed.
+
+(* for a RayGeometry built by the constructors this holds for every ray of the table, and the
+   hypothesis `length ray = length ifs` of the theorems above holds by construction *)
+Theorem constructed_geometry_refines_core : forall T (N : Num T) times interior (fpoints : list (points (T:=T))) ord r ifs g,
+  rays_init times interior fpoints ord = Built r -> raygeom_init ifs r = Built g ->
+  length (a_data interior) = hd 0 (a_shape interior) -> Forall interface_wf ifs ->
+  forall i j, i < t_n (r_indices r) -> j < t_m (r_indices r) ->
+  exists col, rg_column g i j = Some col /\
+    length (normalise ifs col) = length (map to_iface ifs) /\
+    forall idx, o_all N ifs col idx = core_all N (map to_iface ifs) (normalise ifs col) idx.
+Proof. exact @built_geometry_refines_core. Qed.
+
+Theorem constructed_geometry_shape : forall T times interior (fpoints : list (points (T:=T))) ord r ifs g,
+  rays_init times interior fpoints ord = Built r -> raygeom_init ifs r = Built g ->
+  length (a_data interior) = hd 0 (a_shape interior) ->
+  exists p0 rest, fpoints = p0 :: rest /\ t_n (r_indices r) = npoints p0 /\
+                  t_m (r_indices r) = npoints (last fpoints p0) /\
+                  t_d (r_indices r) = length ifs /\ length ifs = length fpoints /\
+                  map p_id fpoints = map (fun f => p_id (i_points f)) ifs.
+Proof. exact @built_shape. Qed.
+
+(* two instances of the transfer, on the reals *)
+Theorem object_leg_size_is_distance : forall (ifs : list (interface (T:=R))) col,
+  length col = length ifs -> Forall interface_wf ifs ->
+  forall idx a s e, resolve (length ifs) idx = Some (S a) ->
+  ray_point (map to_iface ifs) (normalise ifs col) a = Some s ->
+  ray_point (map to_iface ifs) (normalise ifs col) (S a) = Some e ->
+  o_inc_leg_size NumR ifs col idx = Val (euclid s e).
+Proof. exact o_leg_size_is_distance. Qed.
+
+Theorem object_polar_range : forall (ifs : list (interface (T:=R))) col idx theta,
+  (o_inc_leg_polar NumR ifs col idx = Val theta -> (0 <= theta <= PI)%R) /\
+  (o_out_leg_polar NumR ifs col idx = Val theta -> (0 <= theta <= PI)%R).
+Proof. exact o_polar_range. Qed.
+
+(* ---- np.take on signed point indices --------------------------------------------------------------------- *)
+(* the point read at an interface: k and k - numpoints are the same point, anything outside
+   -numpoints .. numpoints-1 is IndexError (for the coordinates and for the frames alike) *)
+Theorem take_semantics_of_the_gathers : forall T (ifs : list (interface (T:=T))) col idx a f z,
+  resolve (length ifs) idx = Some a -> length col = length ifs ->
+  nth_error ifs a = Some f -> nth_error col a = Some z ->
+  o_leg_points ifs col idx =
+    match resolve (npoints (i_points f)) z with
+    | Some p => of_opt (nth_error (p_coords (i_points f)) p)
+    | None => IndexErr
+    end /\
+  o_orientations ifs col idx =
+    match resolve (length (i_orient f)) z with
+    | Some p => of_opt (nth_error (i_orient f) p)
+    | None => IndexErr
+    end.
+Proof. exact @o_leg_points_spec. Qed.
+
+(* two columns designating the same points give the same 17 answers *)
+Theorem same_points_same_answers : forall T (N : Num T) (ifs : list (interface (T:=T))) col col',
+  length col = length ifs -> length col' = length ifs -> Forall interface_wf ifs ->
+  forall idx, normalise ifs col = normalise ifs col' -> o_all N ifs col idx = o_all N ifs col' idx.
+Proof. exact @o_all_same_points. Qed.
+
+(* in particular with EVERY valid entry replaced by its other spelling (k <-> k - numpoints) *)
+Theorem negative_point_indices_same_answers : forall T (N : Num T) (ifs : list (interface (T:=T))) col,
+  length col = length ifs -> Forall interface_wf ifs ->
+  forall idx, o_all N ifs (respell ifs col) idx = o_all N ifs col idx.
+Proof. exact @o_all_respell. Qed.
+
+(* ---- the declared side of the normals --------------------------------------------------------------------- *)
+(* the three cases of the code: `is None` -> ValueError, truthy -> theta, falsy -> pi - theta *)
+Theorem conventional_angle_three_cases : forall T (N : Num T) (ifs : list (interface (T:=T))) col idx a f,
+  resolve (length ifs) idx = Some a -> nth_error ifs a = Some f ->
+  (a <> 0 ->
+     (is_none (i_inc f) = true -> o_conventional_inc_angle N ifs col idx = ValueErr) /\
+     (is_none (i_inc f) = false -> truthy (i_inc f) = true ->
+        o_conventional_inc_angle N ifs col idx = o_inc_leg_polar N ifs col idx) /\
+     (is_none (i_inc f) = false -> truthy (i_inc f) = false ->
+        o_conventional_inc_angle N ifs col idx = rmap (supplement N) (o_inc_leg_polar N ifs col idx))) /\
+  (a <> length ifs - 1 ->
+     (is_none (i_out f) = true -> o_conventional_out_angle N ifs col idx = ValueErr) /\
+     (is_none (i_out f) = false -> truthy (i_out f) = true ->
+        o_conventional_out_angle N ifs col idx = o_out_leg_polar N ifs col idx) /\
+     (is_none (i_out f) = false -> truthy (i_out f) = false ->
+        o_conventional_out_angle N ifs col idx = rmap (supplement N) (o_out_leg_polar N ifs col idx))).
+Proof. exact @o_conventional_cases. Qed.
+
+(* only `is None` and the truth value of a flag matter, in all 17 methods (True / 1, False / 0) *)
+Theorem flag_spelling_irrelevant : forall T (N : Num T) (ifs ifs' : list (interface (T:=T))) col idx,
+  Forall2 same_but_flags ifs ifs' -> o_all N ifs col idx = o_all N ifs' col idx.
+Proof. exact @o_all_same_flags. Qed.
+
+(* ---- error kinds and their order ---------------------------------------------------------------------------- *)
+Theorem interface_index_out_of_range_everywhere : forall T (N : Num T) (ifs : list (interface (T:=T))) col idx,
+  resolve (length ifs) idx = None ->
+  o_all N ifs col idx =
+  (IndexErr, IndexErr, IndexErr, IndexErr, IndexErr, IndexErr, IndexErr, IndexErr, IndexErr, IndexErr,
+   IndexErr, IndexErr, IndexErr, IndexErr, IndexErr, IndexErr, IndexErr).
+Proof. exact @o_interface_out_of_range. Qed.
+
+(* None at the ends of the path comes first: whatever the flags and the point indices are *)
+Theorem ends_answer_none_first : forall T (N : Num T) (ifs : list (interface (T:=T))) col idx,
+  (resolve (length ifs) idx = Some 0 ->
+     o_inc_leg_size N ifs col idx = NoLeg /\ o_inc_leg_cartesian N ifs col idx = NoLeg /\
+     o_inc_leg_radius N ifs col idx = NoLeg /\ o_inc_leg_polar N ifs col idx = NoLeg /\
+     o_inc_leg_azimuth N ifs col idx = NoLeg /\ o_inc_angle N ifs col idx = NoLeg /\
+     o_signed_inc_angle N ifs col idx = NoLeg /\ o_conventional_inc_angle N ifs col idx = NoLeg) /\
+  (resolve (length ifs) idx = Some (length ifs - 1) ->
+     o_out_leg_cartesian N ifs col idx = NoLeg /\
+     o_out_leg_radius N ifs col idx = NoLeg /\ o_out_leg_polar N ifs col idx = NoLeg /\
+     o_out_leg_azimuth N ifs col idx = NoLeg /\ o_out_angle N ifs col idx = NoLeg /\
+     o_signed_out_angle N ifs col idx = NoLeg /\ o_conventional_out_angle N ifs col idx = NoLeg).
+Proof. exact @o_first_last_none. Qed.
+
+(* an undeclared side raises ValueError before any point index is read *)
+Theorem value_error_before_point_indices : forall T (N : Num T) (ifs : list (interface (T:=T))) col idx a f,
+  resolve (length ifs) idx = Some a -> nth_error ifs a = Some f ->
+  (a <> 0 -> is_none (i_inc f) = true -> o_conventional_inc_angle N ifs col idx = ValueErr) /\
+  (a <> length ifs - 1 -> is_none (i_out f) = true -> o_conventional_out_angle N ifs col idx = ValueErr).
+Proof. exact @o_value_error_first. Qed.
+
+(* ---- every ray is independent of the rays stored with it ---------------------------------------------------- *)
+(* a block: the first interface restricted to the points `rows`, the last one to `cols`; its ray
+   (a, b) answers in all 17 methods as the ray (rows[a], cols[b]) of the whole *)
+Theorem block_of_rays_answers_alike : forall T (N : Num T) (f0 fl : interface (T:=T)) mids rows cols id0 idl mid,
+  length mid = length mids ->
+  Forall (fun k => k < npoints (i_points f0)) rows -> Forall (fun k => k < npoints (i_points fl)) cols ->
+  interface_wf f0 -> interface_wf fl ->
+  forall a b ra cb, nth_error rows a = Some ra -> nth_error cols b = Some cb ->
+  forall idx,
+    o_all N (interface_pick id0 rows f0 :: mids ++ [interface_pick idl cols fl]) (Z.of_nat a :: mid ++ [Z.of_nat b]) idx =
+    o_all N (f0 :: mids ++ [fl]) (Z.of_nat ra :: mid ++ [Z.of_nat cb]) idx.
+Proof. exact @block_o_all. Qed.
+
+(* the interior table of the block x[:, rows][:, :, cols] holds the interior entries of those rays *)
+Theorem block_table_column : forall n m rows cols data a b ra cb,
+  (forall lay, In lay data -> length lay = n /\ forall row, In row lay -> length row = m) ->
+  Forall (fun k => k < n) rows -> Forall (fun k => k < m) cols ->
+  nth_error rows a = Some ra -> nth_error cols b = Some cb ->
+  interior_column (data_pick rows cols data) a b = interior_column data ra cb.
+Proof. exact interior_column_pick. Qed.
+
+(* end to end through Rays.make_indices, any orders / layouts of the two tables *)
+Theorem block_of_table_end_to_end : forall T (N : Num T) (f0 fl : interface (T:=T)) mids rows cols id0 idl
+    interior ord ord' c' f' bits,
+  (forall lay, In lay (a_data interior) ->
+     length lay = npoints (i_points f0) /\ forall row, In row lay -> length row = npoints (i_points fl)) ->
+  length (a_data interior) = length mids -> a_dtype interior = DInt bits -> (0 < bits)%Z ->
+  (Z.of_nat (Nat.max (npoints (i_points f0)) (npoints (i_points fl))) <= 2 ^ (bits - 1))%Z ->
+  (Z.of_nat (Nat.max (length rows) (length cols)) <= 2 ^ (bits - 1))%Z ->
+  Forall (fun k => k < npoints (i_points f0)) rows -> Forall (fun k => k < npoints (i_points fl)) cols ->
+  interface_wf f0 -> interface_wf fl ->
+  forall a b ra cb, nth_error rows a = Some ra -> nth_error cols b = Some cb ->
+  let block := mkArr [length mids; length rows; length cols] (DInt bits) c' f' (data_pick rows cols (a_data interior)) in
+  exists col col',
+    tbl_column (make_indices_tbl interior ord (length mids) (npoints (i_points f0)) (npoints (i_points fl))) ra cb = Some col /\
+    tbl_column (make_indices_tbl block ord' (length mids) (length rows) (length cols)) a b = Some col' /\
+    forall idx,
+      o_all N (interface_pick id0 rows f0 :: mids ++ [interface_pick idl cols fl]) col' idx =
+      o_all N (f0 :: mids ++ [fl]) col idx.
+Proof. exact @block_end_to_end. Qed.
+
+(* ---- reversal on the objects ---------------------------------------------------------------------------------- *)
+(* Rays.reverse never fails on a Rays object; the ray (j, i) of the result is the ray (i, j) read
+   backwards, whatever memory order is requested, also with entries counted from the end *)
+Theorem rays_reverse_on_objects : forall T times interior (fpoints : list (points (T:=T))) ord r,
+  rays_init times interior fpoints ord = Built r -> length (a_data interior) = hd 0 (a_shape interior) ->
+  forall o, exists r',
+    rays_reverse r o = Built r' /\ r_fpoints r' = rev fpoints /\
+    t_n (r_indices r') = t_m (r_indices r) /\ t_m (r_indices r') = t_n (r_indices r) /\
+    t_d (r_indices r') = t_d (r_indices r) /\
+    forall i j, i < t_n (r_indices r) -> j < t_m (r_indices r) ->
+      tbl_column (r_indices r') j i = option_map (@rev Z) (tbl_column (r_indices r) i j).
+Proof. exact @rays_reverse_spec. Qed.
+
+(* incoming at k = outgoing at n-1-k of the reversed interfaces with the reversed column, for signed
+   point indices and Python flags *)
+Theorem object_inc_is_out_of_reverse : forall T (N : Num T) (ifs : list (interface (T:=T))) col,
+  length col = length ifs -> Forall interface_wf ifs ->
+  forall idx idx' k, resolve (length ifs) idx = Some k -> resolve (length ifs) idx' = Some (length ifs - 1 - k) ->
+  o_inc_leg_cartesian N ifs col idx = o_out_leg_cartesian N (interfaces_reverse ifs) (rev col) idx' /\
+  o_inc_leg_radius N ifs col idx = o_out_leg_radius N (interfaces_reverse ifs) (rev col) idx' /\
+  o_inc_leg_polar N ifs col idx = o_out_leg_polar N (interfaces_reverse ifs) (rev col) idx' /\
+  o_inc_leg_azimuth N ifs col idx = o_out_leg_azimuth N (interfaces_reverse ifs) (rev col) idx' /\
+  o_inc_angle N ifs col idx = o_out_angle N (interfaces_reverse ifs) (rev col) idx' /\
+  o_signed_inc_angle N ifs col idx = o_signed_out_angle N (interfaces_reverse ifs) (rev col) idx' /\
+  o_conventional_inc_angle N ifs col idx = o_conventional_out_angle N (interfaces_reverse ifs) (rev col) idx'.
+Proof. exact @o_inc_is_out_of_reverse. Qed.
+
+(* ---- rigid motions --------------------------------------------------------------------------------------------- *)
+(* every point p -> Q.p + t (Q orthogonal, proper or not), every frame B -> B.Q^T: leg_points and the
+   frames move along, the other 15 answers (all leg lengths and angles, None and errors included) are
+   unchanged *)
+Theorem rigid_motion_invariance_all_methods : forall Q t, cols_orthonormal NumR Q ->
+  forall (ifs : list (interface (T:=R))) col idx,
+  o_all NumR (map (mv_interface NumR Q t) ifs) col idx =
+  with_gathers (rmap (mv_point NumR Q t) (o_leg_points ifs col idx))
+               (rmap (mv_frame NumR Q) (o_orientations ifs col idx)) (o_all NumR ifs col idx).
+Proof. exact o_all_rigid_motion. Qed.
+
+(* Points.translate(t) on every set of points, frames untouched *)
+Theorem translation_invariance_all_methods : forall t (ifs : list (interface (T:=R))) col idx,
+  o_all NumR (map (translate_interface NumR t) ifs) col idx =
+  with_gathers (rmap (fun p => vadd NumR p t) (o_leg_points ifs col idx)) (o_orientations ifs col idx)
+               (o_all NumR ifs col idx).
+Proof. exact o_all_translation. Qed.
+
+(* ---- non-vacuity of the object-level theorems ------------------------------------------------------------------ *)
+(* three interfaces with 2, 3 and 2 points; a (1, 2, 2) interior table of dtype int16 with entries
+   counted from the end (the scene of Proofs/RayGeomGlueExamples.v, replayed on the library) *)
+Definition q0 : points (T:=R) := mkPoints 10 [(0, 0, 0); (3, 0, 0)]%R.
+Definition q1 : points (T:=R) := mkPoints 11 [(0, 0, 4); (3, 0, 4); (6, 0, 4)]%R.
+Definition q2 : points (T:=R) := mkPoints 12 [(0, 0, 8); (3, 0, 8)]%R.
+Definition g0 : interface (T:=R) := mkInterface q0 [id_frame; id_frame] PyNone (PyBool true).
+Definition g1 : interface (T:=R) := mkInterface q1 [id_frame; id_frame; id_frame] (PyBool true) (PyBool false).
+Definition g2 : interface (T:=R) := mkInterface q2 [id_frame; id_frame] (PyBool false) PyNone.
+Definition gifs : list (interface (T:=R)) := [g0; g1; g2].
+Definition ginterior : ndarray3 := mkArr [1; 2; 2] (DInt 16) true false [[[0; -2]; [1; -1]]]%Z.
+Definition gtimes : times_arr := mkTimes [2; 2] DFloat.
+
+Example gifs_wf : Forall interface_wf gifs.
+Proof. repeat constructor. Qed.
+
+(* the constructors accept the scene (hypotheses of constructed_geometry_refines_core /
+   constructed_geometry_shape / rays_reverse_on_objects), the ray (0, 1) has the column [0, -2, 1] *)
+Example constructors_accept_the_scene :
+  interface_init q0 (OneFrame id_frame) PyNone (PyBool true) = Built g0 /\
+  interface_init q1 (PerPoint [id_frame; id_frame; id_frame]) (PyBool true) (PyBool false) = Built g1 /\
+  exists r g,
+    rays_init gtimes ginterior [q0; q1; q2] None = Built r /\ raygeom_init gifs r = Built g /\
+    length (a_data ginterior) = hd 0 (a_shape ginterior) /\
+    0 < t_n (r_indices r) /\ 1 < t_m (r_indices r) /\
+    rg_column g 0 1 = Some [0; -2; 1]%Z /\
+    rays_args_ok gtimes ginterior [q0; q1; q2] 1 2 2.
+Proof.
+  split; [reflexivity|]. split; [reflexivity|].
+  eexists. eexists. split; [reflexivity|]. split; [reflexivity|].
+  split; [reflexivity|]. split; [cbn; lia|]. split; [cbn; lia|]. split; [reflexivity|].
+  unfold rays_args_ok. repeat split; try reflexivity. exists q0, [q1; q2]. repeat split; reflexivity.
+Qed.
+
+(* ... and reject: a Points object with equal coordinates but another identity (AssertionError), a
+   missing frame (ValueError), an integer flag at construction (AssertionError), rays not computed *)
+Example constructors_reject :
+  (forall r, r_fpoints r = [q0; mkPoints 99 (p_coords q1); q2] -> raygeom_init gifs r = BAssert) /\
+  interface_init q1 (PerPoint [id_frame; id_frame]) PyNone PyNone = BValue /\
+  interface_init q1 (OneFrame id_frame) (PyInt 1) PyNone = BAssert /\
+  raygeom_from_path (mkPath gifs None) = BValue /\
+  rays_init gtimes (mkArr [1; 2; 2] (DUInt 16) true false [[[0; 1]; [1; 2]]]%Z) [q0; q1; q2] None = BAssert.
+Proof.
+  repeat split; try reflexivity.
+  intros r Hr. apply raygeom_init_assert. rewrite Hr. cbn. discriminate.
+Qed.
+
+(* the column [0, -2, 1] and its respelling [-2, 1, -1] designate the points 0, 1, 1; they differ in
+   every entry (negative_point_indices_same_answers / same_points_same_answers are not vacuous) *)
+Example respelling_is_not_trivial :
+  respell gifs [0; -2; 1]%Z = [-2; 1; -1]%Z /\ normalise gifs [0; -2; 1]%Z = [0; 1; 1] /\
+  normalise gifs [-2; 1; -1]%Z = [0; 1; 1] /\ length [0; -2; 1]%Z = length gifs.
+Proof. repeat split; reflexivity. Qed.
+
+(* the three flag cases occur in the scene; flags spelled with integers are another list of
+   interfaces related by same_but_flags; an undeclared side exists *)
+Example flag_cases_occur :
+  resolve (length gifs) 1 = Some 1 /\ nth_error gifs 1 = Some g1 /\ 1 <> 0 /\ 1 <> length gifs - 1 /\
+  is_none (i_inc g1) = false /\ truthy (i_inc g1) = true /\ is_none (i_out g1) = false /\ truthy (i_out g1) = false /\
+  is_none (i_inc g0) = true /\
+  Forall2 same_but_flags gifs [g0; mkInterface q1 [id_frame; id_frame; id_frame] (PyInt 1) (PyInt 0); g2] /\
+  gifs <> [g0; mkInterface q1 [id_frame; id_frame; id_frame] (PyInt 1) (PyInt 0); g2].
+Proof.
+  repeat split; try reflexivity; try (cbn; lia).
+  - repeat constructor.
+  - intros H. discriminate H.
+Qed.
+
+(* a block of the scene: first points [1], last points [1; 0] *)
+Example block_hypotheses_satisfiable :
+  Forall (fun k => k < npoints (i_points g0)) [1] /\ Forall (fun k => k < npoints (i_points g2)) [1; 0] /\
+  interface_wf g0 /\ interface_wf g2 /\ nth_error [1] 0 = Some 1 /\ nth_error [1; 0] 1 = Some 0 /\
+  length [(-1)%Z] = length [g1] /\
+  (forall lay, In lay (a_data ginterior) ->
+     length lay = npoints (i_points g0) /\ forall row, In row lay -> length row = npoints (i_points g2)) /\
+  (Z.of_nat (Nat.max (npoints (i_points g0)) (npoints (i_points g2))) <= 2 ^ (16 - 1))%Z /\
+  data_pick [1] [1; 0] (a_data ginterior) = [[[-1; 1]]]%Z.
+Proof.
+  repeat split; try reflexivity; try (repeat constructor; fail).
+  - destruct H as [<-|[]]. reflexivity.
+  - destruct H as [<-|[]]. intros row [<-|[<-|[]]]; reflexivity.
+  - cbn. lia.
+Qed.
+
+(* reversal: interface 1 of 3 spelled 1 and -2 *)
+Example object_reverse_hypotheses_satisfiable :
+  resolve (length gifs) 1 = Some 1 /\ resolve (length gifs) (-2) = Some (length gifs - 1 - 1) /\
+  interfaces_reverse gifs = [mkInterface q2 [id_frame; id_frame] PyNone (PyBool false);
+                             mkInterface q1 [id_frame; id_frame; id_frame] (PyBool false) (PyBool true);
+                             mkInterface q0 [id_frame; id_frame] (PyBool true) PyNone].
+Proof. repeat split; reflexivity. Qed.
+
+(* tables: a 3 x 2 x 2 table in both orders; room in int16 and int32 for 2 points *)
+Example table_hypotheses_satisfiable :
+  tbl_get (tbl_of_fun OrdF (DInt 16) 3 2 2 (fun k i j => Z.of_nat (100 * k + 10 * i + j))) 2 1 0 = Some 210%Z /\
+  t_buf (tbl_of_fun OrdC (DInt 16) 2 2 2 (fun k i j => Z.of_nat (100 * k + 10 * i + j))) = [0; 1; 10; 11; 100; 101; 110; 111]%Z /\
+  t_buf (tbl_of_fun OrdF (DInt 16) 2 2 2 (fun k i j => Z.of_nat (100 * k + 10 * i + j))) = [0; 100; 10; 110; 1; 101; 11; 111]%Z /\
+  (Z.of_nat (Nat.max 2 2) <= 2 ^ (16 - 1))%Z /\ (Z.of_nat (Nat.max 2 2) <= 2 ^ (32 - 1))%Z.
+Proof. repeat split; try reflexivity; cbn; lia. Qed.
